@@ -1,5 +1,4 @@
-import ProductMD.Proofs.ImagesLoad
-import ProductMD.Proofs.ImagesValid
+import ProductMD.Proofs.ImagesLoadExact
 /-!
 # C09 — image identity is unique within a manifest
 
@@ -105,6 +104,50 @@ theorem C09_load (d : PyVal) (s : ImgState) (ver : PyVal) (hver : headerDeserial
     exact this
   · intro i hi; simp [Cells.all] at hi
 
+/-- **a document containing a colliding pair is rejected** (documents newer than 1.1, whose image table — a JSON
+object, hence with unique keys at both levels — is `O`): if two entries of the table are read as images with the
+same identity and different checksums, `deserialize` raises.  For 1.1 documents (where `src` entries are re-filed)
+the statement is covered by `C09_load` together with the harness, not by this theorem. -/
+theorem C09_load_rejects (ver : PyVal) (vt : VerT) (hvt : versionTuple ver = .ok vt)
+    (hnew : gateEval Gen.gate_images_Images_deserialize_0 vt = .ok false) (hv : Enforces ver)
+    (hdr comp : PyVal) (O : OutCells) (hO : OutNodup O)
+    (hhead : headerDeserialize (.dict [(L "header", hdr), (L "payload", .dict [(L "images", O.toPy), (L "compose", comp)])]) = .ok ver)
+    (t1 t2 : Str × Str × PyVal) (ht1 : t1 ∈ outTriples O) (ht2 : t2 ∈ outTriples O) (i j : Image)
+    (h1 : Image.deserialize ver t1.2.2 = .ok i) (h2 : Image.deserialize ver t2.2.2 = .ok j)
+    (hid : SameIdentity i j) (hck : ¬ PyEq i.checksums j.checksums) :
+    ∃ e, deserialize (.dict [(L "header", hdr), (L "payload", .dict [(L "images", O.toPy), (L "compose", comp)])]) = .error e := by
+  cases hd : deserialize (.dict [(L "header", hdr), (L "payload", .dict [(L "images", O.toPy), (L "compose", comp)])]) with
+  | error e => exact ⟨e, rfl⟩
+  | ok s =>
+    exfalso
+    have hu := C09_load _ s ver hhead hv hd
+    unfold deserialize at hd
+    obtain ⟨ver', hver', hd⟩ := bind_ok hd
+    rw [hhead] at hver'; injection hver' with hver'; subst hver'
+    obtain ⟨payload, hp, hd⟩ := bind_ok hd
+    have e1 : item (.dict [(L "header", hdr), (L "payload", .dict [(L "images", O.toPy), (L "compose", comp)])]) (L "payload")
+        = .ok (.dict [(L "images", O.toPy), (L "compose", comp)]) := rfl
+    rw [e1] at hp; injection hp with hp; subst hp
+    obtain ⟨comp', _, hd⟩ := bind_ok hd
+    obtain ⟨images, himg, hd⟩ := bind_ok hd
+    have e2 : item (.dict [(L "images", O.toPy), (L "compose", comp)]) (L "images") = .ok O.toPy := rfl
+    rw [e2] at himg; injection himg with himg; subst himg
+    obtain ⟨vs, hvs, hd⟩ := bind_ok hd
+    have e3 : iter O.toPy = .ok (O.map fun va => .str va.1) := by
+      simp [toPy_eq, iter, List.map_map, Function.comp_def]
+    rw [e3] at hvs; injection hvs with hvs; subst hvs
+    obtain ⟨r, hl, hd⟩ := bind_ok hd
+    obtain ⟨s1, n⟩ := r
+    injection hd with hd
+    rw [loadVariants_eq ver O hO O (fun _ h => h)] at hl
+    obtain ⟨_, _, hfiles⟩ := loadTriples_files ver O.toPy vt hvt hnew (outTriples O) _ 0 (s1, n)
+      (by intro e he; simp [entries] at he) hl
+    have hi := hfiles t1 ht1 i h1
+    have hj := hfiles t2 ht2 j h2
+    have hcells : s.cells = s1.cells := by rw [← hd]
+    rw [hcells] at hu
+    exact hck (hu i hi j hj hid)
+
 /-- **identity**: for an image that validates (hence can be written), the identity computed from the object
 equals the identity computed from its serialised dictionary (which lacks `unified` / `additional_variants`
 unless the image is unified) -/
@@ -154,6 +197,10 @@ theorem C09_witness_refused :
   decide +kernel
 
 example : witnessA.validate = .ok () := by decide +kernel
+/-- hypotheses of `C09_load_rejects` hold for 1.2 and 2.0 headers; a 1.1 header is outside it (re-filing gate on) -/
+example : versionTuple (.str (L "1.2")) = .ok (.nums (1, 2)) ∧ gateEval Gen.gate_images_Images_deserialize_0 (.nums (1, 2)) = .ok false
+    ∧ gateEval Gen.gate_images_Images_deserialize_0 (.nums (2, 0)) = .ok false
+    ∧ gateEval Gen.gate_images_Images_deserialize_0 (.nums (1, 1)) = .ok true := by decide +kernel
 
 example : Enforces (.str (L "1.1")) := by unfold Enforces; decide +kernel
 example : Enforces (.str (L "1.2")) := by unfold Enforces; decide +kernel
